@@ -344,9 +344,11 @@ def is_affine_st(A: Affine, tol: float = 1e-10) -> bool:
     :return: ``True`` if Affine transform has scale and translation components only
     :return: ``False`` if there is non-zero rotation or skew
     """
-    (_, wx, _, wy, _, _, *_) = A
+    (sx, wx, _, wy, sy, _, *_) = A
 
-    return abs(wx) < tol and abs(wy) < tol
+    # relative to the scale terms: pixels can be tiny in CRS units (degrees),
+    # what matters is displacement in pixels across the image
+    return abs(wx) <= tol * abs(sx) and abs(wy) <= tol * abs(sy)
 
 
 def snap_affine(
